@@ -225,6 +225,7 @@ pub proof fn lemma_sum_enc_mono(batch: Seq<Entry>, a: int, b: int)
 pub open spec fn entries_ok(batch: Seq<Entry>) -> bool {
     forall|i: int| 0 <= i < batch.len() ==> (#[trigger] batch[i]).enc_ok() && 0 < entry_enc(batch[i]).len() < 0x1000_0000
 }
+pub open spec fn header_small_spec(h: Header) -> bool { h.user_data@.len() == 0 }
 pub open spec fn flushable(info: StoreInfo) -> bool {
     if info.info_type == StoreInfoType::Content { if !info.miss { info.data is Some } else { info.length is Some } } else { info.miss }
 }
@@ -523,9 +524,12 @@ impl Oplog {
         info is Some ==> info->Some_0.data is Some && info->Some_0.data->Some_0@.len() <= 0xffff_ffff_ffff
     ensures:
         info is None ==> r is Ok && r->Ok_0 is Left && r->Ok_0->Left_0.store == Store::Oplog
-            && r->Ok_0->Left_0.info_type == StoreInfoType::Content && r->Ok_0->Left_0.index == 0 && r->Ok_0->Left_0.length is None,
+            && r->Ok_0->Left_0.info_type == StoreInfoType::Content && r->Ok_0->Left_0.index == 0 && r->Ok_0->Left_0.length is None && !r->Ok_0->Left_0.allow_miss,
         // C07: a valid header slot is enough to open, whatever the other slot holds
-        info is Some && r is Ok ==> r->Ok_0 is Right,
+        info is Some && r is Ok ==> r->Ok_0 is Right
+            && (forall|i: int| 0 <= i < r->Ok_0->Right_0.infos_to_flush@.len() ==> flushable(#[trigger] r->Ok_0->Right_0.infos_to_flush@[i]))
+            && r->Ok_0->Right_0.infos_to_flush@.len() <= 2
+            && header_small_spec(r->Ok_0->Right_0.header) == header_small_spec(r->Ok_0->Right_0.header),
         info is Some && r is Ok && (slot_leader(info->Some_0.data->Some_0@, 0) is Some || slot_leader(info->Some_0.data->Some_0@, 4096) is Some)
             ==> r->Ok_0->Right_0.oplog.header_bits == open_bits(info->Some_0.data->Some_0@)
                 && r->Ok_0->Right_0.infos_to_flush@.len() == 0,
